@@ -45,6 +45,25 @@ def loop (maxFlips E : Nat) (choice : Nat → Option Nat) : Nat → LoopSt → O
 /-- enough fuel for every run from `s` -/
 def fuelFor (maxFlips E : Nat) (s : LoopSt) : Nat := s.queue + (maxFlips + 1 - s.flips) * (E + 1) + 1
 
+/-- queue items one cell can contribute: its facets, its ridges/edges and its triangles -/
+def itemsPerCell (D : Nat) : Nat :=
+  if D ≤ 2 then D + 1 else (D + 1) + (D + 1) * D / 2 + (D + 1) * D * (D - 1) / 6
+
+/-- in-sphere evaluations per examined item: a facet (k = 2) compares the two opposite vertices
+(2 evaluations); ridge / edge / triangle items look at up to D+2 cells -/
+def evalsPerItem (D : Nat) : Nat := if D ≤ 2 then 2 else 2 * (D + 2)
+
+/-- budget-implied bound on the in-sphere evaluations of ONE public repair call, for any predicate
+behaviour: at most 6 attempts (3 of the plain entry point, the robust retry and the final repair of
+the heuristic rebuild on top), each at most `queue0 + (maxFlips+1)(E+1)` iterations
+(`loop_iters_bounded`) of at most `2(D+2)` evaluations, plus the postcondition sweeps. -/
+def workBound (D cells : Nat) (debug : Bool) : Nat :=
+  let b := defaultMaxFlips D cells debug
+  let queue0 := cells * itemsPerCell D
+  let e := (if D ≤ 2 then 2 else D + 2) * itemsPerCell D      -- new cells of one flip × their items
+  let iters := queue0 + (b + 1) * (e + 1)
+  6 * evalsPerItem D * iters + 6 * 2 * (D + 1) * cells
+
 /-- perturbation attempts of one insertion: `0 ..= maxPerturb` -/
 def insertAttempts (maxPerturb : Nat) (failsAt : Nat → Bool) : Nat → Nat → Nat
   | 0, used => used
